@@ -739,9 +739,10 @@ pub fn cmd_spec(args: &[String]) {
                     let k = g.r.below(4);
                     let mut v = vec![];
                     for _ in 0..k {
-                        v.push(match g.r.below(6) {
+                        v.push(match g.r.below(8) {
                             0 => Ast::Any,
                             1 if g.vmode => { let e = g.ve(1, false); Ast::VClass(e) }
+                            2 => g.r.pick(&[Ast::Bol, Ast::Eol, Ast::WordB(false), Ast::WordB(true)]).clone(),
                             _ => Ast::Char(*g.r.pick(ALT_ATOMS)),
                         });
                     }
@@ -755,9 +756,10 @@ pub fn cmd_spec(args: &[String]) {
                 let k = 2 + g.r.below(3);
                 let mut v = vec![Ast::Bol];
                 for _ in 0..k {
-                    let a = match g.r.below(6) {
+                    let a = match g.r.below(8) {
                         0 => Ast::Any,
                         1 | 2 if g.vmode => { let d = 1 + g.r.below(2) as u32; let e = g.ve(d, false); Ast::VClass(e) }
+                        3 => g.r.pick(&[Ast::Bol, Ast::Eol, Ast::WordB(false), Ast::WordB(true)]).clone(),
                         _ => Ast::Char(*g.r.pick(SEQ_ATOMS)),
                     };
                     v.push(a);
@@ -794,7 +796,7 @@ pub fn cmd_spec(args: &[String]) {
                                        "B", "c", "C", "f", "F", "g", "G", "j", "1", "\u{3c3}", "\u{3c2}", "\u{3a3}", "\u{1c5}", "AB", "aB", "-", "&"]
                 .iter().map(|t| t.to_string()).collect();
             if let Ast::Alt(_) = &ast {
-                let al = ["a", "A", "k", "K", "\u{212A}", "s", "\u{17F}", "\u{e9}", "1", "\n"];
+                let al = ["a", "A", "k", "K", "\u{212A}", "s", "\u{17F}", "\u{e9}", "1", "\n", " "];
                 for x in al { for y in al { ps.push(format!("{}{}", x, y)); for z in ["a", "K"] { ps.push(format!("{}{}{}", x, y, z)); } } }
             }
             if let Ast::Seq(v) = &ast {
@@ -870,7 +872,7 @@ pub fn cmd_spec(args: &[String]) {
                 }
             }
             if let Ast::Seq(v) = &ast {
-                let atoms_only = v.len() >= 3 && v[1..v.len() - 1].iter().all(|a| matches!(a, Ast::VClass(_) | Ast::Char(_) | Ast::Any));
+                let atoms_only = v.len() >= 3 && v[1..v.len() - 1].iter().all(|a| matches!(a, Ast::VClass(_) | Ast::Char(_) | Ast::Any | Ast::Bol | Ast::Eol | Ast::WordB(_)));
                 if atoms_only {
                     if let Ok(ire) = regress::backends::try_parse(pat.chars().map(|c| c as u32), regress::Flags::from(f)) {
                         let mut t = String::new();
